@@ -141,6 +141,10 @@ class AllBlocksScope(Scope):
         if not isinstance(block, gtirb.CodeBlock):
             return False
 
+        # There is nothing to insert into in a zero-sized block.
+        if not block.size:
+            return False
+
         if func is None or self.exclude_functions is None:
             return True
 
@@ -227,6 +231,10 @@ class AllFunctionsScope(Scope):
         block: gtirb.ByteBlock,
     ) -> bool:
         if func is None:
+            return False
+
+        # There is nothing to insert into in a zero-sized block.
+        if not block.size:
             return False
 
         function_matches = self.functions is None or pattern_match(
